@@ -962,6 +962,8 @@ td2  = tuple([string, set(number)])
 td3  = map(object())
 td4  = a :: list(string)
 any_ns = a :: upper("x")
+td5=list(string)
+any_c=upper("x")
 lst  = ["x", "yy"]
 st   = [thing.a, thing.b]
 tup  = ["s", thing.a.n]
